@@ -16,7 +16,8 @@ import (
 type tcase struct {
 	body []byte
 	kind string
-	mode string // "" | "no-ctype" | "text-plain" | "chunked"
+	mode string // "" | "no-ctype" | "text-plain" | "chunked" | "short-length" | "short-chunked"
+	extra int   // short-length: how many bytes more than the body the Content-Length announces
 }
 
 type gen struct {
@@ -102,8 +103,13 @@ func (g *gen) txn() (string, string) {
 			nk = "nonce-odd"
 		}
 	}
-	if g.r.Bool() {
+	switch c := g.r.Intn(8); {
+	case c < 4:
 		fs = append(fs, `"to":"0x00000000000000000000000000000000000000bb"`)
+	case c == 4:
+		// the scripted backend refuses the signed transaction (digits 1..5), digit 6: accepted
+		fs = append(fs, `"to":"0x`+rawRefuseMarker+fmt.Sprint(1+g.r.Intn(6))+`"`)
+		nk += "+raw-refused"
 	}
 	if g.r.Intn(3) == 0 {
 		fs = append(fs, `"gas":"0x5208"`, `"gasPrice":`+g.pick([]string{`"0x1"`, `1000`, `"1000000000"`}))
@@ -359,6 +365,53 @@ func (g *gen) fixed(thorough bool) {
 		g.adds("sendtx-paths", `{"jsonrpc":"2.0","id":9,"method":"eth_sendTransaction"`+sep+p+`}`)
 		g.adds("sendtx-paths", `[{"jsonrpc":"2.0","id":9,"method":"eth_sendTransaction"`+sep+p+`},`+okReq+`]`)
 	}
+	// --- round 3: the backend refuses (or drops, or answers null to) the raw transaction after a successful
+	// signature; every way the nonce lookup can fail; a null nonce answer.  Single and in a batch.
+	for d := 1; d <= 6; d++ {
+		to := `"to":"0x` + rawRefuseMarker + fmt.Sprint(d) + `"`
+		for _, p := range []string{
+			`"params":[{"from":"` + held + `","nonce":"0x1",` + to + `}]`,
+			`"params":[{"from":"` + held + `",` + to + `,"maxFeePerGas":"0x10"}]`,
+			`"params":[{"from":"` + nf + `","nonce":"0x0",` + to + `,"data":"0x01"}]`,
+			`"params":[{"from":"` + nf + `",` + to + `}]`,
+		} {
+			g.adds("sendtx-raw-refused", `{"jsonrpc":"2.0","id":"r`+fmt.Sprint(d)+`","method":"eth_sendTransaction",`+p+`}`)
+			g.adds("sendtx-raw-refused", `[`+okReq+`,{"jsonrpc":"2.0","id":"r`+fmt.Sprint(d)+`","method":"eth_sendTransaction",`+p+`},{"id":3,"method":"t_slow"}]`)
+		}
+	}
+	g.adds("sendtx-raw-refused", `{"id":1,"method":"eth_sendRawTransaction","params":["0xdead"]}`)
+	for i := range g.keys {
+		a := g.keys[i].Hex()
+		for _, p := range []string{`"params":[{"from":"` + a + `"}]`, `"params":[{"from":"` + a + `","nonce":"0x2"}]`, `"params":[{"from":"` + a + `","nonce":null,"gas":"0x5208"}]`} {
+			g.adds("sendtx-nonce-lookup", `{"jsonrpc":"2.0","id":"n`+fmt.Sprint(i)+`","method":"eth_sendTransaction",`+p+`}`)
+			g.adds("sendtx-nonce-lookup", `[{"jsonrpc":"2.0","id":"n`+fmt.Sprint(i)+`","method":"eth_sendTransaction",`+p+`},`+okReq+`]`)
+		}
+	}
+	// --- round 3: a complete value followed by something (json.Unmarshal rejects it; a streaming decoder
+	// would answer the first value)
+	for _, base := range []string{okReq, `[` + okReq + `,null]`, `{"id":1,"method":"eth_sendTransaction","params":[{"from":"` + held + `","nonce":"0x1"}]}`} {
+		for _, t := range []string{`x`, `]`, `}`, `,`, `{}`, `[]`, `null`, `1`, `""`, okReq, "\n" + okReq, ` [` + okReq + `]`, "\x00", ` ]`, `//c`, `,` + okReq, "\n\n{", "\xff"} {
+			g.adds("trailing-after-value", base+t)
+		}
+	}
+	// --- round 3: strings that are not valid UTF-8 / lone surrogates, wherever a string can stand
+	for _, bad := range []string{"\xff\xfe", "\xc0\x80", "\xed\xa0\x80", `\ud800`, `\u0000`, "\xe2\x80\xa8", `\u2028<\u2029>&`} {
+		g.adds("invalid-utf8", `{"jsonrpc":"2.0","id":"`+bad+`","method":"eth_accounts"}`)
+		g.adds("invalid-utf8", `{"jsonrpc":"2.0","id":{"`+bad+`":["`+bad+`"]},"method":"t_result_str"}`)
+		g.adds("invalid-utf8", `[{"id":"`+bad+`","method":"t_rpcerr"},{"id":2,"method":"eth_accounts`+bad+`"},{"id":3,"`+bad+`":1,"method":"eth_accounts"}]`)
+		g.adds("invalid-utf8", `{"id":1,"method":"`+bad+`","params":["`+bad+`"]}`)
+		g.adds("invalid-utf8", `{"id":"`+bad+`","method":"eth_sendTransaction","params":[{"from":"`+bad+`"}]}`)
+		g.adds("invalid-utf8", `{"id":1,"method":"eth_sendTransaction","params":[{"from":"`+held+`","data":"`+bad+`","`+bad+`":1}]}`)
+		g.adds("invalid-utf8", `{"id":1,"meth`+bad+`od":"eth_accounts","method":"t_result_obj"}`)
+	}
+	// --- round 3: the upload ends before the announced length / before the last chunk
+	for _, s := range []string{okReq, `[` + okReq + `,null]`, ``, `{"id":1,"method":"eth_sendTransaction","params":[{"from":"` + held + `"}]}`, `[`, strings.Repeat(" ", 200) + `[` + okReq + `]`,
+		`{"id":1,"method":"t_result_str","params":["` + strings.Repeat("x", 100000) + `"]}`} {
+		for _, extra := range []int{1, 2, 4096} {
+			g.cases = append(g.cases, tcase{body: []byte(s), kind: "upload-ends-early", mode: "short-length", extra: extra})
+		}
+		g.cases = append(g.cases, tcase{body: []byte(s), kind: "upload-ends-early", mode: "short-chunked"})
+	}
 	// --- leading whitespace: the sniff window boundary (99/100/101), far past it, and ~1 MiB
 	lens := []int{0, 1, 2, 98, 99, 100, 101, 102, 127, 128, 255, 256, 1000, 4095, 4096, 4097, 65536}
 	for _, n := range lens {
@@ -423,6 +476,15 @@ func (g *gen) fixed(thorough bool) {
 		}
 		g.adds(fmt.Sprintf("batch-size/%d/all-null", n), `[`+strings.Join(ms, ",")+`]`)
 	}
+	// round 3: sizes around powers of two (chunked / pooled processing would show at such a boundary)
+	for _, n := range []int{127, 128, 129, 255, 256, 257, 511, 512, 513, 1023, 1024, 1025} {
+		ms := make([]string, n)
+		for i := range ms {
+			ms[i] = fmt.Sprintf(`{"id":%d,"method":"%s"}`, i, []string{"eth_accounts", "personal_accounts", "t_result_str", "eth_accounts"}[i%4])
+		}
+		ms[n-1] = `{"id":"last","method":"t_rpcerr"}`
+		g.adds(fmt.Sprintf("batch-size/%d/mix", n), `[`+strings.Join(ms, ",")+`]`)
+	}
 	bigN := 3000
 	if thorough {
 		bigN = 20000
@@ -436,6 +498,17 @@ func (g *gen) fixed(thorough bool) {
 	g.adds("large/1MiB-id", `{"id":"`+big+`","method":"eth_accounts"}`)
 	g.adds("large/1MiB-ignored-member", `{"id":1,"method":"eth_accounts","junk":"`+big+`"}`)
 	g.adds("large/1MiB-unterminated-string", `{"id":1,"method":"eth_accounts","junk":"`+big)
+	// round 3: bodies of exactly 1 MiB (the upper end of the property's quantifier) that must be *processed*
+	pad := func(prefix, suffix string, fill byte) []byte {
+		b := append([]byte(prefix), bytes.Repeat([]byte{fill}, mib-len(prefix)-len(suffix))...)
+		return append(b, suffix...)
+	}
+	g.add("large/exactly-1MiB/single", pad(`{"id":"big","method":"t_result_str","params":["`, `"]}`, 'p'))
+	g.add("large/exactly-1MiB/single-ws-inside", pad(`{"id":"big","method":"eth_accounts"`, `}`, ' '))
+	g.add("large/exactly-1MiB/batch", pad(`[`+okReq+`,{"id":"big","method":"t_result_str","params":["`, `"]},null]`, 'q'))
+	g.add("large/exactly-1MiB/batch-leading-ws", pad(``, `[`+okReq+`,`+okReq+`]`, ' '))
+	g.add("large/exactly-1MiB/single-trailing-ws", pad(okReq, ``, '\n'))
+	g.add("large/exactly-1MiB/sendtx-data", pad(`{"id":"big","method":"eth_sendTransaction","params":[{"from":"`+held+`","nonce":"0x1","data":"0x`, `"}]}`, 'a'))
 	if thorough {
 		g.add("large/1MiB-random", g.r.Bytes(mib))
 	} else {
@@ -546,4 +619,64 @@ func (g *gen) malformed(n int) {
 			g.add("empty-body", nil)
 		}
 	}
+}
+
+// burst: bodies POSTed concurrently to one process (round 3).  Every id carries the sequence number and
+// the position, so a response slot or a whole reply that ends up in another request's answer is seen as
+// an id mismatch by the model comparison; slow members keep several batches in flight at once.
+func (g *gen) burst(seq int, thorough bool) []tcase {
+	n := 12
+	if thorough {
+		n = 24
+	}
+	var out []tcase
+	id := func(k, j int) string { return fmt.Sprintf(`"c%d-%d-%d"`, seq, k, j) }
+	member := func(k, j int) string {
+		switch c := g.r.Intn(14); {
+		case c < 3:
+			return `{"jsonrpc":"2.0","id":` + id(k, j) + `,"method":"eth_accounts"}`
+		case c < 6:
+			return `{"jsonrpc":"2.0","id":` + id(k, j) + `,"method":"` + g.pick([]string{"t_slow", "t_slow", "t_slow_err"}) + `"}`
+		case c < 8:
+			return `{"jsonrpc":"2.0","id":` + id(k, j) + `,"method":"` + g.pick(backendMethods[:14]) + `","params":[` + id(k, j) + `]}`
+		case c == 8:
+			return `null`
+		case c == 9:
+			return `{"method":"eth_accounts"}`
+		case c == 10:
+			return `{"id":` + id(k, j) + `}`
+		case c == 11:
+			return `{"id":` + id(k, j) + `,"method":"eth_sendTransaction","params":[{"from":"` + g.heldAddr(g.r.Intn(len(g.keys))) + `"}]}`
+		case c == 12:
+			return `{"id":` + id(k, j) + `,"method":"eth_sendTransaction","params":[{"from":"` + g.heldAddr(0) + `","nonce":"0x` + fmt.Sprintf("%x", g.r.Intn(100)) + `","to":"0x` + rawRefuseMarker + fmt.Sprint(1+g.r.Intn(6)) + `"}]}`
+		default:
+			return `{"id":` + id(k, j) + `,"method":"eth_sendTransaction","params":[{"from":"zz"}]}`
+		}
+	}
+	for k := 0; k < n; k++ {
+		var body string
+		switch c := g.r.Intn(10); {
+		case c < 5:
+			m := 2 + g.r.Intn(6)
+			if g.r.Intn(6) == 0 {
+				m = 20 + g.r.Intn(50)
+			}
+			ms := make([]string, m)
+			for j := range ms {
+				ms[j] = member(k, j)
+			}
+			body = `[` + strings.Join(ms, ",") + `]`
+		case c < 8:
+			body = member(k, 0)
+			if body == `null` {
+				body = `[null]`
+			}
+		case c == 8:
+			body = g.pick([]string{`[`, `{"id":` + id(k, 0), `[1]`, `[]`, ``, `[` + member(k, 0) + `,1]`, member(k, 0) + `x`})
+		default:
+			body = strings.Repeat(" ", g.r.Intn(300)) + `[` + member(k, 0) + `,` + member(k, 1) + `]`
+		}
+		out = append(out, tcase{body: []byte(body), kind: "concurrent/" + fmt.Sprint(seq)})
+	}
+	return out
 }
